@@ -43,7 +43,7 @@ class Ctx:
         x = X(self.w, assume=self.assumes)
         common.install(x, self)
         for k, v in kw.items(): setattr(x, k, v)
-        self._x = x
+        self._x = x; x.ctx = self
         return x
 
     def assume(self, *fs):
